@@ -527,7 +527,10 @@ class Kernel(Module):
             # Did this Kernel eat the diag option?
             # If it does not return a LazyEvaluatedKernelTensor, we can call diag on the output
             if not isinstance(res, LazyEvaluatedKernelTensor):
-                if res.dim() == x1_.dim() and res.shape[-2:] == torch.Size((x1_.size(-2), x2_.size(-2))):
+                # A full (... x N x M) result has two more dimensions than the broadcasted batch shape,
+                # which may come from the kernel's parameters rather than from the inputs
+                batch_dim = max(x1_.dim() - 2, x2_.dim() - 2, len(self.batch_shape))
+                if res.dim() == batch_dim + 2 and res.shape[-2:] == torch.Size((x1_.size(-2), x2_.size(-2))):
                     res = res.diagonal(dim1=-1, dim2=-2)
             return res
 
